@@ -289,7 +289,7 @@ func ruleSemGate(e *Env, rule, numRule string) {
 		}
 		return []int{0, 1}
 	}
-	leaves, err := extractTree(e.P.SSA, ut, mk, nil, fixed, keyOf, lenDomain)
+	leaves, err := extractTree(e.P.SSA, ut, e.Permuted("sem", "unmarshalText", ut, mk), nil, fixed, keyOf, lenDomain)
 	if err != nil {
 		e.S.Unk(rule, site, "table", err.Error(), e.Pos(ut))
 		return
